@@ -2,6 +2,7 @@ package h
 
 import (
 	"fmt"
+	"os"
 
 	"github.com/MinterTeam/minter-go-node/coreV2/types"
 )
@@ -32,6 +33,14 @@ func ReplayFile(path string) int {
 			s.Restart()
 		}
 		r := s.RunBlock(req, metas, nil)
+		if d := os.Getenv("REPLAY_DUMP"); d != "" && r != nil { // "height:txindex": print that transaction's response
+			var hh int64
+			var ti int
+			if n, _ := fmt.Sscanf(d, "%d:%d", &hh, &ti); n == 2 && hh == req.Height && ti < len(r.Deliver) {
+				dl := r.Deliver[ti]
+				fmt.Printf("DUMP code %d log %s\n tags %v\n", dl.Code, dl.Log, Tags(&dl))
+			}
+		}
 		if r == nil || s.Dead || s.Stopped {
 			break
 		}
